@@ -238,15 +238,15 @@ theorem blocklisting_either_form_rejects (K : Crypto) (p : Pool) (t : Int) (c : 
 
 example : Reachable exK exPool := Reachable.addCA _ _ _ Reachable.empty
 
-example : (exPool.verifyCertificate exK 100 exLeaf).toBool = true := by decide
-example : (exPool.verifyCertificate exK 900 exLeaf).toBool = true := by decide
-example : exPool.verifyCertificate exK 99 exLeaf = .error .rootExpired := by decide
-example : exPool.verifyCertificate exK 901 exLeaf = .error .rootExpired := by decide
-example : (exPool.blocklist "a1f0").verifyCertificate exK 500 exLeaf = .error .blocklisted := by decide
-example : exPool.verifyCertificate exK 500 { exLeaf with groups := [[3]] } = .error (.constraint .group) := by decide
-example : exPool.verifyCertificate exK 500 { exLeaf with networks := [⟨⟨.v4, 0x0b000001⟩, 24⟩] } =
+example : (exPool.verifyCertificate exK 100000000000 exLeaf).toBool = true := by decide
+example : (exPool.verifyCertificate exK 900000000000 exLeaf).toBool = true := by decide
+example : exPool.verifyCertificate exK 99999999999 exLeaf = .error .rootExpired := by decide
+example : exPool.verifyCertificate exK 900000000001 exLeaf = .error .rootExpired := by decide
+example : (exPool.blocklist "a1f0").verifyCertificate exK 500000000000 exLeaf = .error .blocklisted := by decide
+example : exPool.verifyCertificate exK 500000000000 { exLeaf with groups := [[3]] } = .error (.constraint .group) := by decide
+example : exPool.verifyCertificate exK 500000000000 { exLeaf with networks := [⟨⟨.v4, 0x0b000001⟩, 24⟩] } =
     .error (.constraint .network) := by decide
-example : trusted exK exPool 500 exLeaf :=
+example : trusted exK exPool 500000000000 exLeaf :=
   (accept_iff _ _ _ _).mp ⟨⟨exLeaf, "1eaf", "a1f0", "ca01"⟩, by decide⟩
 
 end Nebula.Props.C01
